@@ -171,6 +171,27 @@ CLAIMED["C20"] = dict(
     technique="Lean 4 noninterference proof over hand-written models + paired poisoned executions",
     engine="HashMB/AES", ref="5 C20")
 
+CLAIMED["C17"] = dict(
+    text="Proof (Lean 4), for every number of threads and every interleaving: the abstract status-word protocol "
+         "(Impl/SelfTest.lean) runs the self tests at most once, no call returns before a verdict is published, "
+         "success is returned only if they passed, all calls agree, the verdict is stable, and under a fair "
+         "scheduler every call returns (C17_once, _no_early_return, _agree, _verdict_stable, _live, _final). "
+         "T-route tie: tools/gen_selftest.py regenerates, from the disassembly of the FIPS build, the three programs "
+         "asm_check_self_tests_status / asm_set_self_tests_status / isal_self_tests in a 21-form mini-ISA; the "
+         "kernel-checked simulation checker (simCheck, proved sound: Lemmas/SelfTestSim.lean) shows they implement the "
+         "abstract protocol instruction by instruction (sim_ok, decide +kernel), so safety and liveness transfer to "
+         "the machine level (C17_machine, C17_machine_live, C17_generated). Obligation (c): every value the two "
+         "self-test functions can return is 0 or 1 (extracted from the C sources; D2 violated it - fixed da1f043). "
+         "Closed world: only self_tests.o imports the status functions; the status word is a local symbol. "
+         "Correspondence: harness/drv_fips.c, 1-64 threads released by a barrier into first calls of the FIPS build "
+         "with the self tests passing / AES failing / SHA failing, then later calls.",
+    note="Trusted: Lean kernel + standard axioms; objdump decoding and the translator; sequential consistency for the "
+         "single status word (x86-TSO is coherent per location, lock cmpxchg is a full barrier); the self-test functions "
+         "are opaque calls returning a value of the extracted set; fairness is an assumption of the liveness clauses; "
+         "self_tests_generic.c (non-x86) not covered. Which entry points call isal_self_tests first is C13's subject.",
+    technique="Lean 4 protocol proof + verified simulation checker over translated disassembly + stress correspondence",
+    engine="SelfTest", ref="5 C17")
+
 REASON_TODO = "check not built yet in this session (work in progress, see DESIGN.md status section)"
 
 props = [json.loads(l) for l in open(os.path.join(V, "properties.jsonl"))]
@@ -219,6 +240,8 @@ m = {
          "kind_free_text": "mini-x86 interpreter + exact symbolic execution + verified path checker; tools/gen_dispatch.py translator; harness/drv_dispatch.c under the hook"},
         {"name": "AES", "path": "lean/IsalVerif/Spec/Aes.lean", "serves_properties": ["C02", "C03", "C04", "C07"],
          "kind_free_text": "executable standards (FIPS-197, SP 800-38D, IEEE 1619, SP 800-38A) + GcmStream context model; harness/drv_aes.c"},
+        {"name": "SelfTest", "path": "lean/IsalVerif/Impl/SelfTest.lean", "serves_properties": ["C17"],
+         "kind_free_text": "abstract n-thread status-word protocol + mini-ISA machine (Impl/SelfTestMachine.lean) + verified simulation checker; tools/gen_selftest.py translator; harness/drv_fips.c"},
         {"name": "HashMB", "path": "lean/IsalVerif/Impl/HashMB.lean", "serves_properties": ["C01", "C06", "C11", "C15", "C20"],
          "kind_free_text": "hand-written Lean model of ctx layer + lane scheduler; correspondence harness harness/drv_hash.c"},
     ],
